@@ -47,6 +47,28 @@ if round3:
              'where evaluation order does not matter (pure comparisons of locals); `const` locals, `noexcept` where already implied is NOT allowed (changes the interface). '
              'Do NOT rename data members or public/protected functions, and do not change which mutex protects what. ')
 
+round4 = len(sys.argv) > 3 and sys.argv[3] == 'round4'
+if round4:
+    extra = ('Three earlier studies already collected the following kinds, do NOT repeat them: guard clauses / inverted conditions, a local holding a test result, '
+             'lambda <-> named functor, range-for <-> iterator loop <-> std::for_each, lock_guard <-> unique_lock, a private helper extracted or inlined, a function split '
+             'into steps, a body moved into a static or free helper taking the object, reference / pointer aliases to members, a local struct for state, conditional '
+             'expressions, de Morgan, merged or split conditions, member initialisers for body assignments, execute-around closures, withLock(mutex, closure) helpers, '
+             'single-exit style, loop rotation / peeling, tag dispatch for enable_if pairs, out-of-line member definitions, defaulted-parameter enable_if, typedef/using aliases. '
+             'Look for rewrites of OTHER kinds, for example: MOVING CODE AROUND without changing it - reordering member functions (including the two overloads of an '
+             'enable_if pair) or nested classes inside a class body, moving a nested helper class or a metafunction to another internal header that is already included, '
+             'reordering specialisations that do not overlap; a group of private helper functions moved into a private base class or a nested `struct Impl` with static members '
+             'taking the object; a small RAII class of the library replaced by an equivalent local RAII struct (or a generic ScopeExit-style guard running a closure in its '
+             'destructor) with the same construction and destruction points; a pair of hand-written statements replaced by an equivalent private helper used at all the sibling '
+             'sites (e.g. "link at tail", "notify if allowed", "mark removed"); recursion over a parameter pack replaced by pack expansion into an initializer list '
+             '(int dummy[] = { (f(args), 0)... }) or the reverse, only where evaluation order is the same; std::get<I> / std::tuple_element spelled through a helper alias; '
+             'a boolean member function re-expressed through its sibling (e.g. `operator bool` via `!empty()`); comparisons through std::less / std::equal_to or a small '
+             'constexpr helper where the types are built-in; `x = x + 1` / `x += 1` / `++x` for plain integers (not for atomics, whose operations differ); an iterator '
+             'advanced with std::next / std::advance instead of ++; `auto` vs the spelled-out type, `decltype(member)` vs the alias; a template template parameter or a '
+             'long dependent type hoisted into a class-level `using`; C-style / functional casts turned into static_cast; a `for` loop with the increment moved into the body '
+             'end where no `continue` exists; macros introduced for a repeated snippet; wrapping a block in an immediately invoked lambda `[&]{ ... }()` with the same returns; '
+             '`if(p)` vs `if(p != nullptr)` vs `if(static_cast<bool>(p))`; `return f(), void()` style avoided - keep it readable. '
+             'Do NOT rename data members or public/protected functions, do not change which mutex protects what, and do not change data member declaration order. ')
+
 print(f'''You are given a scratch git worktree of the header-only C++11 library wqking/eventpp at {wt} (work ONLY inside that directory; never touch /repo or /verif, never read /verif). The library headers are in {wt}/include/eventpp, its unit tests (Catch) in {wt}/tests/unittest, its documentation in {wt}/doc.
 
 Your task: produce FOUR different BEHAVIOUR-PRESERVING refactorings of the library code in {AREAS[area]} - the kind of edit a careful maintainer makes while tidying up: restructuring control flow (early returns, inverted conditions, merged or split conditionals), introducing or inlining a local variable or a small private helper function, replacing a range-for by an iterator loop or the other way round, using an equivalent standard-library call (emplace_back for push_back, std::unique_lock for std::lock_guard, a while loop around a plain condition-variable wait instead of the predicate overload, std::swap vs member swap ...), renaming locals, reordering independent statements, replacing a lambda by a named functor, writing a comparison the other way round, etc. Each refactoring must leave the observable behaviour of the library EXACTLY as it is for every input, every interleaving of threads and every exception path (same locks held over the same operations, same order of side effects on shared state, same exception safety, same results) - we use these to check that an analysis tool does not raise false alarms, so a refactoring that subtly changes behaviour is worse than useless. {extra}Prefer edits that change the *shape* of the code substantially (not just whitespace or comments) while being provably equivalent; make the four of different kinds and in different functions. Touch only library headers; keep it C++11.
